@@ -1981,4 +1981,182 @@ Section Sim.
           apply (Hfull _ _ s' H1 Hs5' Hip' Hv). fin.
   Qed.
 
+  (* one iteration of the fast loop in partial mode on a sequence that is complete in the input *)
+  Lemma fast_top_seq_part s tok r ll r1 lits o1 o2 r3 ml r4 rout rout1 :
+    partial = true ->
+    bytes (tok :: r) -> src_at srcm (ip s) (tok :: r) -> 0 <= ip s ->
+    ip s + Z.of_nat (length (tok :: r)) <= iend ->
+    read_len (tok / 16) r = Some (ll, r1) -> take (Z.to_nat ll) r1 = Some (lits, o1 :: o2 :: r3) ->
+    read_len (tok mod 16) r3 = Some (ml, r4) -> (6 <= length r4)%nat ->
+    out_at (vget (dm s)) (op s) rout -> Z.of_nat (length rout) <= op s - lowPrefix -> 0 <= op s -> op s <= oend - 64 ->
+    apply_seq rout (mkSeq lits (o1 + 256 * o2) (ml + 4)) = Some rout1 ->
+    is_cod_any (fast_top partial dict srcm iend oend lowPrefix rlow dictm dictSize s)
+      (part_post (op s) (ll + (ml + 4)) rout1
+         (fun s' => ip s' + Z.of_nat (length r4) = ip s + Z.of_nat (length (tok :: r)) /\
+                    src_at srcm (ip s') r4 /\ bytes r4)).
+  Proof.
+    intros Hp Hb Hs Hip Hie Hrl1 Htk Hrl2 Hr4 O Hlen Hop Hoe Happ.
+    unfold byte in *.
+    destruct (bytes_cons _ _ Hb) as [Htok Hbr].
+    destruct (src_at_cons _ _ _ _ Hs) as [Htokm Hsr].
+    destruct (nibbles tok Htok) as [Hn1 Hn2].
+    cbn [length] in Hie.
+    destruct (read_len_suffix _ _ _ _ _ Hn1 Hrl1 Hbr Hsr) as (Hl1 & Hll & Hnoext & Hs1 & Hb1).
+    unfold byte in *.
+    set (p1 := ip s + 1 + (Z.of_nat (length r) - Z.of_nat (length r1))) in *.
+    destruct (take_spec _ _ _ _ Htk) as [Er1 Hlits]. unfold byte in *.
+    assert (Ell : ll = Z.of_nat (length lits)) by lia.
+    rewrite Er1 in Hs1, Hb1.
+    assert (Hlr1 : length r1 = (length lits + S (S (length r3)))%nat).
+    { rewrite Er1, app_length. reflexivity. }
+    destruct (bytes_app _ _ Hb1) as [_ Hb2].
+    destruct (bytes_cons _ _ Hb2) as [Ho1 Hb3]. destruct (bytes_cons _ _ Hb3) as [Ho2 Hb4].
+    unfold apply_seq in Happ. cbn [s_lits s_off s_mlen] in Happ.
+    destruct (off_ok (o1 + 256 * o2) && (4 <=? ml + 4)) eqn:Eok; [|discriminate].
+    assert (Hoff : 1 <= o1 + 256 * o2) by (unfold off_ok in Eok; lia).
+    destruct (src_at_app _ _ _ _ Hs1) as [Hsl Hs2].
+    destruct (src_at_cons _ _ _ _ Hs2) as [_ Hs3]. destruct (src_at_cons _ _ _ _ Hs3) as [_ Hs4].
+    destruct (read_len_suffix _ _ _ _ _ Hn2 Hrl2 Hb4 Hs4) as (Hl2 & Hml & Hnoext2 & Hs5 & Hb5).
+    assert (Hml0 : 0 <= ml) by lia.
+    assert (Hcm : copy_match (rev lits ++ rout) (Z.to_nat (o1 + 256 * o2)) (Z.to_nat (ml + 4)) = Some rout1) by exact Happ.
+    (* after a complete literal copy of either fast-loop kind *)
+    assert (Hfo : forall m1 kf, same_below (dm s) m1 (op s) -> op s + ll <= oend ->
+               (forall j, (j < length lits)%nat -> get m1 (op s + Z.of_nat j) = nth j lits 0) ->
+               is_cod_any (fast_offset partial dict srcm iend oend lowPrefix rlow dictm dictSize
+                              (mkD (p1 + Z.of_nat (length lits)) (op s + Z.of_nat (length lits)) m1 kf) tok)
+                 (part_post (op s) (ll + (ml + 4)) rout1
+                    (fun s' => ip s' + Z.of_nat (length r4) = ip s + Z.of_nat (S (length r)) /\
+                               src_at srcm (ip s') r4 /\ bytes r4))).
+    { intros m1 kf S1 Hfit L1.
+      eapply is_cod_any_mono.
+      - apply (fast_offset_part (p1 + Z.of_nat (length lits)) (op s + Z.of_nat (length lits)) m1 kf tok o1 o2 r3 ml r4 (rev lits ++ rout) rout1);
+          unfold byte in *; try assumption; try lia.
+        + cbn [length]. unfold p1. lia.
+        + apply lits_out_v with (m := dm s); assumption.
+        + rewrite app_length, rev_length. lia.
+      - unfold part_post. unfold byte in *. intros done s' (H1 & H2 & H3).
+        replace (Z.min (ll + (ml + 4)) (oend - op s)) with (ll + Z.min (ml + 4) (oend - (op s + ll))) by lia.
+        rewrite <- Ell in *.
+        split; [lia|]. split.
+        + replace (ll + (ml + 4) - (ll + Z.min (ml + 4) (oend - (op s + ll)))) with (ml + 4 - Z.min (ml + 4) (oend - (op s + ll))) by lia.
+          exact H2.
+        + destruct done; [exact H3|]. destruct H3 as [H3 [H4 H5]]. split; [lia|]. split; [unfold p1 in H4; lia|]. split; assumption. }
+    (* the safe_lit exits *)
+    assert (Hsl' : forall kf,
+               is_cod_any (safe_lit partial dict srcm iend oend lowPrefix rlow dictm dictSize (mkD p1 (op s) (dm s) kf) tok (Z.of_nat (length lits)))
+                 (part_post (op s) (ll + (ml + 4)) rout1
+                    (fun s' => ip s' + Z.of_nat (length r4) = ip s + Z.of_nat (S (length r)) /\
+                               src_at srcm (ip s') r4 /\ bytes r4))).
+    { intros kf. apply is_cod_is_any. eapply is_cod_mono.
+      - apply (safe_lit_part (mkD p1 (op s) (dm s) kf) tok lits o1 o2 r3 ml r4 rout rout1); cbn [ip op dm]; unfold byte in *; try assumption; try lia.
+        rewrite app_length. cbn [length]. unfold p1. lia.
+      - unfold part_post. cbn [ip op dm]. unfold byte in *. intros done s' (H1 & H2 & H3). rewrite <- Ell in *.
+        split; [exact H1|]. split; [exact H2|].
+        destruct done; [exact H3|]. destruct H3 as [H3 [H4 H5]]. split; [exact H3|]. split; [unfold p1 in H4; lia|]. split; assumption. }
+    unfold fast_top. cbv zeta. rewrite Htokm. cbn [length].
+    destruct (tok / 16 =? RUN_MASK) eqn:E15; cbv beta iota.
+    - unfold read_len in Hrl1. assert (E15' : (tok / 16 =? 15) = true) by fin. rewrite E15' in Hrl1.
+      destruct (rvl_sim r ll r1 (ip s + 1) (iend - RUN_MASK) true (ok s && rd_src iend (ip s) 1) Hrl1 Hsr) as (_ & _ & kf' & Hr); [fin | fin | fin |].
+      rewrite Hr. cbv beta iota. unfold byte. fold p1.
+      replace (tok / 16 + (ll - 15)) with (Z.of_nat (length lits)) by fin.
+      destruct ((op s + Z.of_nat (length lits) >? oend - 32) || (p1 + Z.of_nat (length lits) >? iend - 32)) eqn:Enear; cbv beta iota.
+      + apply Hsl'.
+      + apply Hfo; [apply wild32_in_same_below | lia | apply wild32_in_lits; exact Hsl].
+    - assert (Hlt15 : tok / 16 < 15) by fin.
+      destruct (Hnoext Hlt15) as [Ell' Er].
+      assert (Ep1 : p1 = ip s + 1) by (unfold p1; rewrite Er; lia).
+      replace (tok / 16) with (Z.of_nat (length lits)) by lia.
+      rewrite <- Ep1.
+      destruct (p1 <=? iend - (16 + 1)) eqn:E17; cbv beta iota.
+      + apply Hfo; [apply blit_same_below | lia | apply blit_lits; [exact Hsl | lia]].
+      + apply Hsl'.
+  Qed.
+
+  (* the final literal run in partial mode, from [safe_lit] *)
+  Lemma safe_lit_last_part p1 o m kf tok lits rout :
+    partial = true -> src_at srcm p1 lits -> p1 + Z.of_nat (length lits) <= iend ->
+    (p1 + Z.of_nat (length lits) = iend \/ oend <= o + Z.of_nat (length lits)) ->
+    out_at (vget m) o rout -> 0 <= o -> o <= oend ->
+    is_done (safe_lit partial dict srcm iend oend lowPrefix rlow dictm dictSize (mkD p1 o m kf) tok (Z.of_nat (length lits)))
+            (fun s' => op s' = o + Z.min (Z.of_nat (length lits)) (oend - o) /\
+                       out_at (vget (dm s')) (op s')
+                         (skipn (Z.to_nat (Z.of_nat (length lits) - Z.min (Z.of_nat (length lits)) (oend - o))) (rev lits ++ rout))).
+  Proof.
+    intros Hp Hs1 Ep1 Ep1' O Hop Hoe.
+    set (ll := Z.of_nat (length lits)) in *.
+    unfold safe_lit. cbv zeta. cbn [ip op dm]. rewrite Hp. cbn [negb andb].
+    hd.
+    assert (Ec1 : (p1 + ll >? iend) = false) by lia. rewrite Ec1. cbv beta iota.
+    destruct (o + ll >? oend) eqn:Eclip; cbv beta iota.
+    - assert (Ed : (oend =? oend) || (p1 + (oend - o) >=? iend - 2) = true) by lia.
+      rewrite orb_false_l, Ed. cbn [is_done op dm].
+      replace (Z.min ll (oend - o)) with (oend - o) by lia.
+      split; [lia|].
+      replace (Z.to_nat (ll - (oend - o))) with (length lits - Z.to_nat (oend - o))%nat by lia.
+      rewrite <- rev_firstn_skipn by lia.
+      replace (o + (oend - o)) with (o + Z.of_nat (length (firstn (Z.to_nat (oend - o)) lits))) by (rewrite firstn_length; lia).
+      apply lits_out_v with (m := m); try assumption.
+      + apply blit_same_below.
+      + apply blit_lits; [|rewrite firstn_length; lia].
+        intros j Hj. rewrite firstn_length in Hj. rewrite Hs1 by lia.
+        symmetry. apply nth_firstn_lt. lia.
+    - assert (Ed : (o + ll =? oend) || (p1 + ll >=? iend - 2) = true) by lia.
+      rewrite orb_false_l, Ed. cbn [is_done op dm].
+      replace (Z.min ll (oend - o)) with ll by lia.
+      split; [lia|].
+      replace (Z.to_nat (ll - ll)) with 0%nat by lia. cbn [skipn].
+      unfold ll. rewrite Nat2Z.id.
+      apply lits_out_v with (m := m); try assumption.
+      + apply blit_same_below.
+      + apply blit_lits; [exact Hs1 | lia].
+  Qed.
+
+  Lemma fast_top_last_part s tok r ll r1 lits rout :
+    partial = true ->
+    bytes (tok :: r) -> src_at srcm (ip s) (tok :: r) -> 0 <= ip s ->
+    ip s + Z.of_nat (length (tok :: r)) <= iend ->
+    (ip s + Z.of_nat (length (tok :: r)) = iend \/ oend <= op s + ll) ->
+    read_len (tok / 16) r = Some (ll, r1) -> take (Z.to_nat ll) r1 = Some (lits, []) ->
+    out_at (vget (dm s)) (op s) rout -> 0 <= op s -> op s <= oend - 64 ->
+    is_done (fast_top partial dict srcm iend oend lowPrefix rlow dictm dictSize s)
+            (fun s' => op s' = op s + Z.min ll (oend - op s) /\
+                       out_at (vget (dm s')) (op s') (skipn (Z.to_nat (ll - Z.min ll (oend - op s))) (rev lits ++ rout))).
+  Proof.
+    intros Hp Hb Hs Hip Hie Hex Hrl1 Htk O Hop Hoe.
+    unfold byte in *.
+    destruct (bytes_cons _ _ Hb) as [Htok Hbr].
+    destruct (src_at_cons _ _ _ _ Hs) as [Htokm Hsr].
+    destruct (nibbles tok Htok) as [Hn1 Hn2].
+    cbn [length] in Hie, Hex.
+    destruct (read_len_suffix _ _ _ _ _ Hn1 Hrl1 Hbr Hsr) as (Hl1 & Hll & Hnoext & Hs1 & Hb1).
+    unfold byte in *.
+    set (p1 := ip s + 1 + (Z.of_nat (length r) - Z.of_nat (length r1))) in *.
+    destruct (take_spec _ _ _ _ Htk) as [Er1 Hlits]. unfold byte in *.
+    rewrite app_nil_r in Er1.
+    assert (Ell : ll = Z.of_nat (length lits)) by lia.
+    assert (Hlr1 : length r1 = length lits) by (rewrite Er1; reflexivity).
+    rewrite Er1 in Hs1.
+    assert (Hlit : forall kf,
+      is_done (safe_lit partial dict srcm iend oend lowPrefix rlow dictm dictSize (mkD p1 (op s) (dm s) kf) tok (Z.of_nat (length lits)))
+              (fun s' => op s' = op s + Z.min ll (oend - op s) /\
+                         out_at (vget (dm s')) (op s') (skipn (Z.to_nat (ll - Z.min ll (oend - op s))) (rev lits ++ rout)))).
+    { intros kf. rewrite Ell. apply safe_lit_last_part; try assumption; unfold p1; lia. }
+    unfold fast_top. cbv zeta. rewrite Htokm.
+    destruct (tok / 16 =? RUN_MASK) eqn:E15; cbv beta iota.
+    - unfold read_len in Hrl1. assert (E15' : (tok / 16 =? 15) = true) by fin. rewrite E15' in Hrl1.
+      destruct (rvl_sim r ll r1 (ip s + 1) (iend - RUN_MASK) true (ok s && rd_src iend (ip s) 1) Hrl1 Hsr) as (_ & _ & kf' & Hr); [fin | fin | fin |].
+      rewrite Hr. cbv beta iota. unfold byte. fold p1.
+      replace (tok / 16 + (ll - 15)) with (Z.of_nat (length lits)) by fin.
+      (* either the input ends here (less than 32 bytes left) or the output window does *)
+      assert (En : (op s + Z.of_nat (length lits) >? oend - 32) || (p1 + Z.of_nat (length lits) >? iend - 32) = true) by (unfold p1; lia).
+      rewrite En. apply Hlit.
+    - assert (Hlt15 : tok / 16 < 15) by fin.
+      destruct (Hnoext Hlt15) as [Ell' Er].
+      assert (Ep1' : p1 = ip s + 1) by (unfold p1; rewrite Er; lia).
+      rewrite <- Ep1'. replace (tok / 16) with (Z.of_nat (length lits)) by lia.
+      (* ll <= 14 and op <= oend - 64: the output window cannot end here, so the input does *)
+      assert (E17 : (p1 <=? iend - (16 + 1)) = false) by (rewrite Er in Hlr1; unfold p1; lia). rewrite E17.
+      apply Hlit.
+  Qed.
+
 End Sim.
